@@ -18,10 +18,21 @@ EPS = 2.0 ** -52
 BINS = 256
 LIMIT = 6000          # arrays up to this size are sent value by value to the binning model
 MASK64 = (1 << 64) - 1
+# Which of several maximising cuts comes back.  Cuts inside one run of empty bins give the float criterion identical
+# operands, so np.argmax (first maximum) returns the first cut of the run; the mechanism model says so
+# (`returned_is_first_of_run`) and with this switch on the check demands it of the implementation (impl-vs-model).
+# The property text itself only asks for *a* maximiser: switched off, the position inside the run is recorded as a
+# feature and not judged.
+STRICT_FIRST_OF_RUN = True
 
 
 def fnum(v):
     return None if v is None or (isinstance(v, float) and math.isnan(v)) else float(v)
+
+
+def m_n(case, clean):
+    """the values the binning model was given: the runs of a run-length encoded case, every value otherwise"""
+    return [v for v, _ in case["rle"] if v is not None] if "rle" in case else range(int(clean.size))
 
 
 def np_next(v, d):
@@ -382,7 +393,7 @@ class C15(Prop):
         except ValueError:  # "Too many bins for data range": 256 finite-sized float bins do not exist
             pass
         # --- np.histogram against its double-precision model (every value, no tolerance)
-        binning_ok, bfeats, drep = self.check_binning(flat, clean, isint, hist, edges, ctx)
+        binning_ok, bfeats, drep = self.check_binning(case, flat, clean, isint, hist, edges, ctx)
         if hist is None:
             return outcome({}, {}, {}, undetermined=binning_ok, model_ok=binning_ok,
                            features=feats | bfeats | {"range-below-float-resolution(histogram raises)"},
@@ -477,16 +488,19 @@ class C15(Prop):
         first_of_run = ki is not None and ki < len(cls) and cls[ki] == ki
         impl["first_cut_of_its_run"] = first_of_run
         model["first_cut_of_its_run"] = True
+        if not first_of_run:
+            feats.add("returned-cut-is-not-the-first-of-its-run")
+        strict_run = first_of_run or not STRICT_FIRST_OF_RUN
         if len(near_classes) == 1:
             feats.add("unique-maximiser(strict comparison)" if len(near) == 1
                       else "maximisers-in-one-empty-bin-run(strict comparison: first cut of the run)")
-            model_ok = model_ok and t == model_t and first_of_run
+            model_ok = model_ok and strict_run and (t == model_t if STRICT_FIRST_OF_RUN else ki in near)
         else:
             feats.add("maximisers-in-%s-runs-within-rounding(which run not tested; first cut of the run demanded)"
                       % ("2" if len(near_classes) == 2 else "3+"))
-            model_ok = model_ok and (ki in near) and first_of_run
+            model_ok = model_ok and (ki in near) and strict_run
         # --- the exact-uniform-edges layer (otsuArr on the data as given, NaN = none): same histogram => same threshold
-        if drep is not None:
+        if drep is not None and drep["exact"] is not None:
             ex = drep["exact"]
             same_hist = ex is not None and ex["hist"] == [int(v) for v in hist]
             feats.add("exact-uniform-binning:" + ("same-histogram" if same_hist else "differs-near-an-edge"))
@@ -506,20 +520,28 @@ class C15(Prop):
             feats.add("outside-property:NaN-kept->ValueError:" + ("as-modelled" if agrees else "DIFFERS(recorded only)"))
         return outcome(impl, model, spec, spec_ok=spec_ok, model_ok=model_ok, features=feats)
 
-    def check_binning(self, flat, clean, isint, hist, edges, ctx):
+    def check_binning(self, case, flat, clean, isint, hist, edges, ctx):
         """np.histogram(clean, bins=256) against `npHistogram` (Lean `Float` = IEEE binary64): the same counts and
         bit-identical edges, or both raise.  Returns (ok, features, driver reply or None)"""
-        if clean.size > LIMIT:
+        if isint and not np.all(np.abs(flat) <= 2 ** 53):
+            return True, {"binning-model-skipped:int-beyond-2^53"}, None
+        feats = set()
+        if "rle" in case:
+            # run-length encoded (large) arrays: the model bins every distinct value once, the counts are weighted by
+            # the run lengths; NaN runs are dropped here as `x[~np.isnan(x)]` drops them
+            runs = [(float(v), int(c)) for v, c in case["rle"] if v is not None]
+            drep = ctx.driver.call("c15.data", bits=[str(core.tok(v) & MASK64) for v, _ in runs],
+                                   data=[orat(v) for v, _ in runs], counts=[c for _, c in runs], bins=BINS)
+            feats.add("binning:run-length-weighted")
+        elif clean.size > LIMIT:
             # every value travels to the driver; only done for small arrays.  The histogram NumPy produced is still the
             # input of all criterion checks
             return True, {"binning-model-skipped:large"}, None
-        f64 = flat.astype(np.float64)
-        if isint and not np.all(np.abs(flat) <= 2 ** 53):
-            return True, {"binning-model-skipped:int-beyond-2^53"}, None
-        drep = ctx.driver.call("c15.data", bits=[str(core.tok(float(v)) & MASK64) for v in f64],
-                               data=[orat(float(v)) for v in f64], bins=BINS)
+        else:
+            f64 = flat.astype(np.float64)
+            drep = ctx.driver.call("c15.data", bits=[str(core.tok(float(v)) & MASK64) for v in f64],
+                                   data=[orat(float(v)) for v in f64], bins=BINS)
         m = drep["np"]
-        feats = set()
         if "raises" in m:
             ok = hist is None and m["raises"].startswith("ValueError")
             feats.add("binning-compared:both-raise" if ok else "binning-model-raises:" + m["raises"])
@@ -527,12 +549,13 @@ class C15(Prop):
         if hist is None:
             return False, {"binning:numpy-raises-model-does-not"}, drep
         same = (m["hist"] == [int(v) for v in hist]
-                and [int(b) for b in m["edge_bits"]] == [core.tok(float(v)) & MASK64 for v in edges])
+                and [int(b) for b in m["edge_bits"]] == [core.tok(float(v)) & MASK64 for v in edges]
+                and [unrat(e) for e in m["edges"]] == [Fraction(float(v)) for v in edges])   # f64ToRat of the model's edges
         # what the theorems need of the edges and of the index estimate: evaluated, and recorded
         sane = (m["edges_increasing"] and m["first_edge_is_min"] and m["last_edge_is_max"]
                 and m["float_compare_is_exact_compare"])
         feats.add("binning-compared(every value, bit-exact edges)")
-        feats.add("index-estimate:" + ("exact-for-all" if m["est_exact"] == int(clean.size) else
+        feats.add("index-estimate:" + ("exact-for-all" if m["est_exact"] == len(m_n(case, clean)) else
                                        "off-by-one-corrected" if m["est_within_one"] else "off-by-more-than-one"))
         if m["est_within_one"] and not m["hist_is_by_edges"]:
             sane = False     # contradicts theorem np_bin_correct
